@@ -9,25 +9,28 @@ open WaVerif.X64
      add eax, dword ptr [rbp-40]
      mov dword ptr [rbp-32], eax
 -/
-def i32_add : Template := { code := [.mov (.reg .rax .d) (.slot 4 .d),
+def i32_add : Template := ⟨[.mov (.reg .rax .d) (.slot 4 .d),
     .alu .add (.reg .rax .d) (.slot 5 .d),
-    .mov (.slot 4 .d) (.reg .rax .d)], x := 4, y := 5 }
+    .mov (.slot 4 .d) (.reg .rax .d)],
+    4, 5⟩    -- code, x slot, y slot
 /- i32.sub:
      mov eax, dword ptr [rbp-32]
      sub eax, dword ptr [rbp-40]
      mov dword ptr [rbp-32], eax
 -/
-def i32_sub : Template := { code := [.mov (.reg .rax .d) (.slot 4 .d),
+def i32_sub : Template := ⟨[.mov (.reg .rax .d) (.slot 4 .d),
     .alu .sub (.reg .rax .d) (.slot 5 .d),
-    .mov (.slot 4 .d) (.reg .rax .d)], x := 4, y := 5 }
+    .mov (.slot 4 .d) (.reg .rax .d)],
+    4, 5⟩    -- code, x slot, y slot
 /- i32.mul:
      mov  eax, dword ptr [rbp-32]
      imul eax, dword ptr [rbp-40]
      mov  dword ptr [rbp-32], eax
 -/
-def i32_mul : Template := { code := [.mov (.reg .rax .d) (.slot 4 .d),
+def i32_mul : Template := ⟨[.mov (.reg .rax .d) (.slot 4 .d),
     .alu .imul (.reg .rax .d) (.slot 5 .d),
-    .mov (.slot 4 .d) (.reg .rax .d)], x := 4, y := 5 }
+    .mov (.slot 4 .d) (.reg .rax .d)],
+    4, 5⟩    -- code, x slot, y slot
 /- i32.div_s:
      push rdx
      mov  eax, dword ptr [rbp-32]
@@ -36,12 +39,13 @@ def i32_mul : Template := { code := [.mov (.reg .rax .d) (.slot 4 .d),
      mov  dword ptr [rbp-32], eax
      pop  rdx
 -/
-def i32_div_s : Template := { code := [.push .rdx,
+def i32_div_s : Template := ⟨[.push .rdx,
     .mov (.reg .rax .d) (.slot 4 .d),
     .cdq,
     .idiv (.slot 5 .d),
     .mov (.slot 4 .d) (.reg .rax .d),
-    .pop .rdx], x := 4, y := 5 }
+    .pop .rdx],
+    4, 5⟩    -- code, x slot, y slot
 /- i32.div_u:
      push rdx
      mov  eax, dword ptr [rbp-32]
@@ -50,12 +54,13 @@ def i32_div_s : Template := { code := [.push .rdx,
      mov  dword ptr [rbp-32], eax
      pop  rdx
 -/
-def i32_div_u : Template := { code := [.push .rdx,
+def i32_div_u : Template := ⟨[.push .rdx,
     .mov (.reg .rax .d) (.slot 4 .d),
     .alu .xor (.reg .rdx .d) (.reg .rdx .d),
     .div (.slot 5 .d),
     .mov (.slot 4 .d) (.reg .rax .d),
-    .pop .rdx], x := 4, y := 5 }
+    .pop .rdx],
+    4, 5⟩    -- code, x slot, y slot
 /- i32.rem_s:
      push rdx
      mov  eax, dword ptr [rbp-32]
@@ -64,12 +69,13 @@ def i32_div_u : Template := { code := [.push .rdx,
      mov  dword ptr [rbp-32], edx
      pop  rdx
 -/
-def i32_rem_s : Template := { code := [.push .rdx,
+def i32_rem_s : Template := ⟨[.push .rdx,
     .mov (.reg .rax .d) (.slot 4 .d),
     .cdq,
     .idiv (.slot 5 .d),
     .mov (.slot 4 .d) (.reg .rdx .d),
-    .pop .rdx], x := 4, y := 5 }
+    .pop .rdx],
+    4, 5⟩    -- code, x slot, y slot
 /- i32.rem_u:
      push rdx
      mov  eax, dword ptr [rbp-32]
@@ -78,36 +84,40 @@ def i32_rem_s : Template := { code := [.push .rdx,
      mov  dword ptr [rbp-32], edx
      pop  rdx
 -/
-def i32_rem_u : Template := { code := [.push .rdx,
+def i32_rem_u : Template := ⟨[.push .rdx,
     .mov (.reg .rax .d) (.slot 4 .d),
     .alu .xor (.reg .rdx .d) (.reg .rdx .d),
     .div (.slot 5 .d),
     .mov (.slot 4 .d) (.reg .rdx .d),
-    .pop .rdx], x := 4, y := 5 }
+    .pop .rdx],
+    4, 5⟩    -- code, x slot, y slot
 /- i32.and:
      mov eax, dword ptr [rbp-32]
      and eax, dword ptr [rbp-40]
      mov dword ptr [rbp-32], eax
 -/
-def i32_and : Template := { code := [.mov (.reg .rax .d) (.slot 4 .d),
+def i32_and : Template := ⟨[.mov (.reg .rax .d) (.slot 4 .d),
     .alu .and (.reg .rax .d) (.slot 5 .d),
-    .mov (.slot 4 .d) (.reg .rax .d)], x := 4, y := 5 }
+    .mov (.slot 4 .d) (.reg .rax .d)],
+    4, 5⟩    -- code, x slot, y slot
 /- i32.or:
      mov eax, dword ptr [rbp-32]
      or  eax, dword ptr [rbp-40]
      mov dword ptr [rbp-32], eax
 -/
-def i32_or : Template := { code := [.mov (.reg .rax .d) (.slot 4 .d),
+def i32_or : Template := ⟨[.mov (.reg .rax .d) (.slot 4 .d),
     .alu .or (.reg .rax .d) (.slot 5 .d),
-    .mov (.slot 4 .d) (.reg .rax .d)], x := 4, y := 5 }
+    .mov (.slot 4 .d) (.reg .rax .d)],
+    4, 5⟩    -- code, x slot, y slot
 /- i32.xor:
      mov eax, dword ptr [rbp-32]
      xor eax, dword ptr [rbp-40]
      mov dword ptr [rbp-32], eax
 -/
-def i32_xor : Template := { code := [.mov (.reg .rax .d) (.slot 4 .d),
+def i32_xor : Template := ⟨[.mov (.reg .rax .d) (.slot 4 .d),
     .alu .xor (.reg .rax .d) (.slot 5 .d),
-    .mov (.slot 4 .d) (.reg .rax .d)], x := 4, y := 5 }
+    .mov (.slot 4 .d) (.reg .rax .d)],
+    4, 5⟩    -- code, x slot, y slot
 /- i32.shl:
      push rcx
      mov  eax, dword ptr [rbp-32]
@@ -116,12 +126,13 @@ def i32_xor : Template := { code := [.mov (.reg .rax .d) (.slot 4 .d),
      mov  dword ptr [rbp-32], eax
      pop  rcx
 -/
-def i32_shl : Template := { code := [.push .rcx,
+def i32_shl : Template := ⟨[.push .rcx,
     .mov (.reg .rax .d) (.slot 4 .d),
     .mov (.reg .rcx .d) (.slot 5 .d),
     .sh .shl (.reg .rax .d),
     .mov (.slot 4 .d) (.reg .rax .d),
-    .pop .rcx], x := 4, y := 5 }
+    .pop .rcx],
+    4, 5⟩    -- code, x slot, y slot
 /- i32.shr_s:
      push rcx
      mov  eax, dword ptr [rbp-32]
@@ -130,12 +141,13 @@ def i32_shl : Template := { code := [.push .rcx,
      mov  dword ptr [rbp-32], eax
      pop  rcx
 -/
-def i32_shr_s : Template := { code := [.push .rcx,
+def i32_shr_s : Template := ⟨[.push .rcx,
     .mov (.reg .rax .d) (.slot 4 .d),
     .mov (.reg .rcx .d) (.slot 5 .d),
     .sh .sar (.reg .rax .d),
     .mov (.slot 4 .d) (.reg .rax .d),
-    .pop .rcx], x := 4, y := 5 }
+    .pop .rcx],
+    4, 5⟩    -- code, x slot, y slot
 /- i32.shr_u:
      push rcx
      mov  eax, dword ptr [rbp-32]
@@ -144,12 +156,13 @@ def i32_shr_s : Template := { code := [.push .rcx,
      mov  dword ptr [rbp-32], eax
      pop  rcx
 -/
-def i32_shr_u : Template := { code := [.push .rcx,
+def i32_shr_u : Template := ⟨[.push .rcx,
     .mov (.reg .rax .d) (.slot 4 .d),
     .mov (.reg .rcx .d) (.slot 5 .d),
     .sh .shr (.reg .rax .d),
     .mov (.slot 4 .d) (.reg .rax .d),
-    .pop .rcx], x := 4, y := 5 }
+    .pop .rcx],
+    4, 5⟩    -- code, x slot, y slot
 /- i32.rotl:
      push rcx
      mov  eax, dword ptr [rbp-32]
@@ -158,12 +171,13 @@ def i32_shr_u : Template := { code := [.push .rcx,
      mov  dword ptr [rbp-32], eax
      pop  rcx
 -/
-def i32_rotl : Template := { code := [.push .rcx,
+def i32_rotl : Template := ⟨[.push .rcx,
     .mov (.reg .rax .d) (.slot 4 .d),
     .mov (.reg .rcx .d) (.slot 5 .d),
     .sh .rol (.reg .rax .d),
     .mov (.slot 4 .d) (.reg .rax .d),
-    .pop .rcx], x := 4, y := 5 }
+    .pop .rcx],
+    4, 5⟩    -- code, x slot, y slot
 /- i32.rotr:
      push rcx
      mov  eax, dword ptr [rbp-32]
@@ -172,12 +186,13 @@ def i32_rotl : Template := { code := [.push .rcx,
      mov  dword ptr [rbp-32], eax
      pop  rcx
 -/
-def i32_rotr : Template := { code := [.push .rcx,
+def i32_rotr : Template := ⟨[.push .rcx,
     .mov (.reg .rax .d) (.slot 4 .d),
     .mov (.reg .rcx .d) (.slot 5 .d),
     .sh .ror (.reg .rax .d),
     .mov (.slot 4 .d) (.reg .rax .d),
-    .pop .rcx], x := 4, y := 5 }
+    .pop .rcx],
+    4, 5⟩    -- code, x slot, y slot
 /- i32.eq:
      mov   r10d, dword ptr [rbp-32]
      mov   r11d, dword ptr [rbp-40]
@@ -186,12 +201,13 @@ def i32_rotr : Template := { code := [.push .rcx,
      movzx eax, al # eax = al
      mov   dword ptr [rbp-32], eax
 -/
-def i32_eq : Template := { code := [.mov (.reg .r10 .d) (.slot 4 .d),
+def i32_eq : Template := ⟨[.mov (.reg .r10 .d) (.slot 4 .d),
     .mov (.reg .r11 .d) (.slot 5 .d),
     .alu .cmp (.reg .r10 .d) (.reg .r11 .d),
     .set .e (.reg .rax .b),
     .movzx (.reg .rax .d) (.reg .rax .b),
-    .mov (.slot 4 .d) (.reg .rax .d)], x := 4, y := 5 }
+    .mov (.slot 4 .d) (.reg .rax .d)],
+    4, 5⟩    -- code, x slot, y slot
 /- i32.ne:
      mov   r10d, dword ptr [rbp-32]
      mov   r11d, dword ptr [rbp-40]
@@ -200,12 +216,13 @@ def i32_eq : Template := { code := [.mov (.reg .r10 .d) (.slot 4 .d),
      movzx eax, al # eax = al
      mov   dword ptr [rbp-32], eax
 -/
-def i32_ne : Template := { code := [.mov (.reg .r10 .d) (.slot 4 .d),
+def i32_ne : Template := ⟨[.mov (.reg .r10 .d) (.slot 4 .d),
     .mov (.reg .r11 .d) (.slot 5 .d),
     .alu .cmp (.reg .r10 .d) (.reg .r11 .d),
     .set .ne (.reg .rax .b),
     .movzx (.reg .rax .d) (.reg .rax .b),
-    .mov (.slot 4 .d) (.reg .rax .d)], x := 4, y := 5 }
+    .mov (.slot 4 .d) (.reg .rax .d)],
+    4, 5⟩    -- code, x slot, y slot
 /- i32.lt_s:
      mov   r10d, dword ptr [rbp-32]
      mov   r11d, dword ptr [rbp-40]
@@ -214,12 +231,13 @@ def i32_ne : Template := { code := [.mov (.reg .r10 .d) (.slot 4 .d),
      movzx eax, al
      mov   dword ptr [rbp-32], eax
 -/
-def i32_lt_s : Template := { code := [.mov (.reg .r10 .d) (.slot 4 .d),
+def i32_lt_s : Template := ⟨[.mov (.reg .r10 .d) (.slot 4 .d),
     .mov (.reg .r11 .d) (.slot 5 .d),
     .alu .cmp (.reg .r10 .d) (.reg .r11 .d),
     .set .l (.reg .rax .b),
     .movzx (.reg .rax .d) (.reg .rax .b),
-    .mov (.slot 4 .d) (.reg .rax .d)], x := 4, y := 5 }
+    .mov (.slot 4 .d) (.reg .rax .d)],
+    4, 5⟩    -- code, x slot, y slot
 /- i32.lt_u:
      mov   r10d, dword ptr [rbp-32]
      mov   r11d, dword ptr [rbp-40]
@@ -228,12 +246,13 @@ def i32_lt_s : Template := { code := [.mov (.reg .r10 .d) (.slot 4 .d),
      movzx eax, al
      mov   dword ptr [rbp-32], eax
 -/
-def i32_lt_u : Template := { code := [.mov (.reg .r10 .d) (.slot 4 .d),
+def i32_lt_u : Template := ⟨[.mov (.reg .r10 .d) (.slot 4 .d),
     .mov (.reg .r11 .d) (.slot 5 .d),
     .alu .cmp (.reg .r10 .d) (.reg .r11 .d),
     .set .b (.reg .rax .b),
     .movzx (.reg .rax .d) (.reg .rax .b),
-    .mov (.slot 4 .d) (.reg .rax .d)], x := 4, y := 5 }
+    .mov (.slot 4 .d) (.reg .rax .d)],
+    4, 5⟩    -- code, x slot, y slot
 /- i32.gt_s:
      mov   r10d, dword ptr [rbp-32]
      mov   r11d, dword ptr [rbp-40]
@@ -242,12 +261,13 @@ def i32_lt_u : Template := { code := [.mov (.reg .r10 .d) (.slot 4 .d),
      movzx eax, al
      mov   dword ptr [rbp-32], eax
 -/
-def i32_gt_s : Template := { code := [.mov (.reg .r10 .d) (.slot 4 .d),
+def i32_gt_s : Template := ⟨[.mov (.reg .r10 .d) (.slot 4 .d),
     .mov (.reg .r11 .d) (.slot 5 .d),
     .alu .cmp (.reg .r10 .d) (.reg .r11 .d),
     .set .g (.reg .rax .b),
     .movzx (.reg .rax .d) (.reg .rax .b),
-    .mov (.slot 4 .d) (.reg .rax .d)], x := 4, y := 5 }
+    .mov (.slot 4 .d) (.reg .rax .d)],
+    4, 5⟩    -- code, x slot, y slot
 /- i32.gt_u:
      mov   r10d, dword ptr [rbp-32]
      mov   r11d, dword ptr [rbp-40]
@@ -256,12 +276,13 @@ def i32_gt_s : Template := { code := [.mov (.reg .r10 .d) (.slot 4 .d),
      movzx eax, al
      mov   dword ptr [rbp-32], eax
 -/
-def i32_gt_u : Template := { code := [.mov (.reg .r10 .d) (.slot 4 .d),
+def i32_gt_u : Template := ⟨[.mov (.reg .r10 .d) (.slot 4 .d),
     .mov (.reg .r11 .d) (.slot 5 .d),
     .alu .cmp (.reg .r10 .d) (.reg .r11 .d),
     .set .a (.reg .rax .b),
     .movzx (.reg .rax .d) (.reg .rax .b),
-    .mov (.slot 4 .d) (.reg .rax .d)], x := 4, y := 5 }
+    .mov (.slot 4 .d) (.reg .rax .d)],
+    4, 5⟩    -- code, x slot, y slot
 /- i32.le_s:
      mov   r10d, dword ptr [rbp-32]
      mov   r11d, dword ptr [rbp-40]
@@ -270,12 +291,13 @@ def i32_gt_u : Template := { code := [.mov (.reg .r10 .d) (.slot 4 .d),
      movzx eax, al
      mov   dword ptr [rbp-32], eax
 -/
-def i32_le_s : Template := { code := [.mov (.reg .r10 .d) (.slot 4 .d),
+def i32_le_s : Template := ⟨[.mov (.reg .r10 .d) (.slot 4 .d),
     .mov (.reg .r11 .d) (.slot 5 .d),
     .alu .cmp (.reg .r10 .d) (.reg .r11 .d),
     .set .le (.reg .rax .b),
     .movzx (.reg .rax .d) (.reg .rax .b),
-    .mov (.slot 4 .d) (.reg .rax .d)], x := 4, y := 5 }
+    .mov (.slot 4 .d) (.reg .rax .d)],
+    4, 5⟩    -- code, x slot, y slot
 /- i32.le_u:
      mov   r10d, dword ptr [rbp-32]
      mov   r11d, dword ptr [rbp-40]
@@ -284,12 +306,13 @@ def i32_le_s : Template := { code := [.mov (.reg .r10 .d) (.slot 4 .d),
      movzx eax, al
      mov   dword ptr [rbp-32], eax
 -/
-def i32_le_u : Template := { code := [.mov (.reg .r10 .d) (.slot 4 .d),
+def i32_le_u : Template := ⟨[.mov (.reg .r10 .d) (.slot 4 .d),
     .mov (.reg .r11 .d) (.slot 5 .d),
     .alu .cmp (.reg .r10 .d) (.reg .r11 .d),
     .set .be (.reg .rax .b),
     .movzx (.reg .rax .d) (.reg .rax .b),
-    .mov (.slot 4 .d) (.reg .rax .d)], x := 4, y := 5 }
+    .mov (.slot 4 .d) (.reg .rax .d)],
+    4, 5⟩    -- code, x slot, y slot
 /- i32.ge_s:
      mov   r10d, dword ptr [rbp-32]
      mov   r11d, dword ptr [rbp-40]
@@ -298,12 +321,13 @@ def i32_le_u : Template := { code := [.mov (.reg .r10 .d) (.slot 4 .d),
      movzx eax, al
      mov   dword ptr [rbp-32], eax
 -/
-def i32_ge_s : Template := { code := [.mov (.reg .r10 .d) (.slot 4 .d),
+def i32_ge_s : Template := ⟨[.mov (.reg .r10 .d) (.slot 4 .d),
     .mov (.reg .r11 .d) (.slot 5 .d),
     .alu .cmp (.reg .r10 .d) (.reg .r11 .d),
     .set .ge (.reg .rax .b),
     .movzx (.reg .rax .d) (.reg .rax .b),
-    .mov (.slot 4 .d) (.reg .rax .d)], x := 4, y := 5 }
+    .mov (.slot 4 .d) (.reg .rax .d)],
+    4, 5⟩    -- code, x slot, y slot
 /- i32.ge_u:
      mov   r10d, dword ptr [rbp-32]
      mov   r11d, dword ptr [rbp-40]
@@ -312,12 +336,13 @@ def i32_ge_s : Template := { code := [.mov (.reg .r10 .d) (.slot 4 .d),
      movzx eax, al
      mov   dword ptr [rbp-32], eax
 -/
-def i32_ge_u : Template := { code := [.mov (.reg .r10 .d) (.slot 4 .d),
+def i32_ge_u : Template := ⟨[.mov (.reg .r10 .d) (.slot 4 .d),
     .mov (.reg .r11 .d) (.slot 5 .d),
     .alu .cmp (.reg .r10 .d) (.reg .r11 .d),
     .set .ae (.reg .rax .b),
     .movzx (.reg .rax .d) (.reg .rax .b),
-    .mov (.slot 4 .d) (.reg .rax .d)], x := 4, y := 5 }
+    .mov (.slot 4 .d) (.reg .rax .d)],
+    4, 5⟩    -- code, x slot, y slot
 /- i32.eqz:
      mov   eax, dword ptr [rbp-24]
      cmp   eax, 0  # (eax==0)?
@@ -325,59 +350,66 @@ def i32_ge_u : Template := { code := [.mov (.reg .r10 .d) (.slot 4 .d),
      movzx eax, al # eax = al
      mov   dword ptr [rbp-24], eax
 -/
-def i32_eqz : Template := { code := [.mov (.reg .rax .d) (.slot 3 .d),
+def i32_eqz : Template := ⟨[.mov (.reg .rax .d) (.slot 3 .d),
     .alu .cmp (.reg .rax .d) (.imm (0)),
     .set .e (.reg .rax .b),
     .movzx (.reg .rax .d) (.reg .rax .b),
-    .mov (.slot 3 .d) (.reg .rax .d)], x := 3, y := 0 }
+    .mov (.slot 3 .d) (.reg .rax .d)],
+    3, 0⟩    -- code, x slot, y slot
 /- i32.clz:
      mov   eax, dword ptr [rbp-24]
      lzcnt eax, eax
      mov   dword ptr [rbp-24], eax
 -/
-def i32_clz : Template := { code := [.mov (.reg .rax .d) (.slot 3 .d),
+def i32_clz : Template := ⟨[.mov (.reg .rax .d) (.slot 3 .d),
     .lzcnt (.reg .rax .d) (.reg .rax .d),
-    .mov (.slot 3 .d) (.reg .rax .d)], x := 3, y := 0 }
+    .mov (.slot 3 .d) (.reg .rax .d)],
+    3, 0⟩    -- code, x slot, y slot
 /- i32.ctz:
      mov   eax, dword ptr [rbp-24]
      tzcnt eax, eax
      mov   dword ptr [rbp-24], eax
 -/
-def i32_ctz : Template := { code := [.mov (.reg .rax .d) (.slot 3 .d),
+def i32_ctz : Template := ⟨[.mov (.reg .rax .d) (.slot 3 .d),
     .tzcnt (.reg .rax .d) (.reg .rax .d),
-    .mov (.slot 3 .d) (.reg .rax .d)], x := 3, y := 0 }
+    .mov (.slot 3 .d) (.reg .rax .d)],
+    3, 0⟩    -- code, x slot, y slot
 /- i32.popcnt:
      mov    eax, dword ptr [rbp-24]
      popcnt eax, eax
      mov    dword ptr [rbp-24], eax
 -/
-def i32_popcnt : Template := { code := [.mov (.reg .rax .d) (.slot 3 .d),
+def i32_popcnt : Template := ⟨[.mov (.reg .rax .d) (.slot 3 .d),
     .popcnt (.reg .rax .d) (.reg .rax .d),
-    .mov (.slot 3 .d) (.reg .rax .d)], x := 3, y := 0 }
+    .mov (.slot 3 .d) (.reg .rax .d)],
+    3, 0⟩    -- code, x slot, y slot
 /- i64.add:
      mov rax, qword ptr [rbp-32]
      add rax, qword ptr [rbp-40]
      mov qword ptr [rbp-32], rax
 -/
-def i64_add : Template := { code := [.mov (.reg .rax .q) (.slot 4 .q),
+def i64_add : Template := ⟨[.mov (.reg .rax .q) (.slot 4 .q),
     .alu .add (.reg .rax .q) (.slot 5 .q),
-    .mov (.slot 4 .q) (.reg .rax .q)], x := 4, y := 5 }
+    .mov (.slot 4 .q) (.reg .rax .q)],
+    4, 5⟩    -- code, x slot, y slot
 /- i64.sub:
      mov rax, qword ptr [rbp-32]
      sub rax, qword ptr [rbp-40]
      mov qword ptr [rbp-32], rax
 -/
-def i64_sub : Template := { code := [.mov (.reg .rax .q) (.slot 4 .q),
+def i64_sub : Template := ⟨[.mov (.reg .rax .q) (.slot 4 .q),
     .alu .sub (.reg .rax .q) (.slot 5 .q),
-    .mov (.slot 4 .q) (.reg .rax .q)], x := 4, y := 5 }
+    .mov (.slot 4 .q) (.reg .rax .q)],
+    4, 5⟩    -- code, x slot, y slot
 /- i64.mul:
      mov  rax, qword ptr [rbp-32]
      imul rax, qword ptr [rbp-40]
      mov  qword ptr [rbp-32], rax
 -/
-def i64_mul : Template := { code := [.mov (.reg .rax .q) (.slot 4 .q),
+def i64_mul : Template := ⟨[.mov (.reg .rax .q) (.slot 4 .q),
     .alu .imul (.reg .rax .q) (.slot 5 .q),
-    .mov (.slot 4 .q) (.reg .rax .q)], x := 4, y := 5 }
+    .mov (.slot 4 .q) (.reg .rax .q)],
+    4, 5⟩    -- code, x slot, y slot
 /- i64.div_s:
      push rdx
      mov  rax, qword ptr [rbp-32]
@@ -386,12 +418,13 @@ def i64_mul : Template := { code := [.mov (.reg .rax .q) (.slot 4 .q),
      mov  qword ptr [rbp-32], rax
      pop rdx
 -/
-def i64_div_s : Template := { code := [.push .rdx,
+def i64_div_s : Template := ⟨[.push .rdx,
     .mov (.reg .rax .q) (.slot 4 .q),
     .cqo,
     .idiv (.slot 5 .q),
     .mov (.slot 4 .q) (.reg .rax .q),
-    .pop .rdx], x := 4, y := 5 }
+    .pop .rdx],
+    4, 5⟩    -- code, x slot, y slot
 /- i64.div_u:
      push rdx
      mov  rax, qword ptr [rbp-32]
@@ -400,12 +433,13 @@ def i64_div_s : Template := { code := [.push .rdx,
      mov  qword ptr [rbp-32], rax
      pop  rdx
 -/
-def i64_div_u : Template := { code := [.push .rdx,
+def i64_div_u : Template := ⟨[.push .rdx,
     .mov (.reg .rax .q) (.slot 4 .q),
     .alu .xor (.reg .rdx .q) (.reg .rdx .q),
     .div (.slot 5 .q),
     .mov (.slot 4 .q) (.reg .rax .q),
-    .pop .rdx], x := 4, y := 5 }
+    .pop .rdx],
+    4, 5⟩    -- code, x slot, y slot
 /- i64.rem_s:
      push rdx
      mov  rax, qword ptr [rbp-32]
@@ -414,12 +448,13 @@ def i64_div_u : Template := { code := [.push .rdx,
      mov  qword ptr [rbp-32], rdx
      pop  rdx
 -/
-def i64_rem_s : Template := { code := [.push .rdx,
+def i64_rem_s : Template := ⟨[.push .rdx,
     .mov (.reg .rax .q) (.slot 4 .q),
     .cqo,
     .idiv (.slot 5 .q),
     .mov (.slot 4 .q) (.reg .rdx .q),
-    .pop .rdx], x := 4, y := 5 }
+    .pop .rdx],
+    4, 5⟩    -- code, x slot, y slot
 /- i64.rem_u:
      push rdx
      mov  rax, qword ptr [rbp-32]
@@ -428,36 +463,40 @@ def i64_rem_s : Template := { code := [.push .rdx,
      mov  qword ptr [rbp-32], rdx
      pop  rdx
 -/
-def i64_rem_u : Template := { code := [.push .rdx,
+def i64_rem_u : Template := ⟨[.push .rdx,
     .mov (.reg .rax .q) (.slot 4 .q),
     .alu .xor (.reg .rdx .q) (.reg .rdx .q),
     .div (.slot 5 .q),
     .mov (.slot 4 .q) (.reg .rdx .q),
-    .pop .rdx], x := 4, y := 5 }
+    .pop .rdx],
+    4, 5⟩    -- code, x slot, y slot
 /- i64.and:
      mov rax, qword ptr [rbp-32]
      and rax, qword ptr [rbp-40]
      mov qword ptr [rbp-32], rax
 -/
-def i64_and : Template := { code := [.mov (.reg .rax .q) (.slot 4 .q),
+def i64_and : Template := ⟨[.mov (.reg .rax .q) (.slot 4 .q),
     .alu .and (.reg .rax .q) (.slot 5 .q),
-    .mov (.slot 4 .q) (.reg .rax .q)], x := 4, y := 5 }
+    .mov (.slot 4 .q) (.reg .rax .q)],
+    4, 5⟩    -- code, x slot, y slot
 /- i64.or:
      mov rax, qword ptr [rbp-32]
      or  rax, qword ptr [rbp-40]
      mov qword ptr [rbp-32], rax
 -/
-def i64_or : Template := { code := [.mov (.reg .rax .q) (.slot 4 .q),
+def i64_or : Template := ⟨[.mov (.reg .rax .q) (.slot 4 .q),
     .alu .or (.reg .rax .q) (.slot 5 .q),
-    .mov (.slot 4 .q) (.reg .rax .q)], x := 4, y := 5 }
+    .mov (.slot 4 .q) (.reg .rax .q)],
+    4, 5⟩    -- code, x slot, y slot
 /- i64.xor:
      mov rax, qword ptr [rbp-32]
      xor rax, qword ptr [rbp-40]
      mov qword ptr [rbp-32], rax
 -/
-def i64_xor : Template := { code := [.mov (.reg .rax .q) (.slot 4 .q),
+def i64_xor : Template := ⟨[.mov (.reg .rax .q) (.slot 4 .q),
     .alu .xor (.reg .rax .q) (.slot 5 .q),
-    .mov (.slot 4 .q) (.reg .rax .q)], x := 4, y := 5 }
+    .mov (.slot 4 .q) (.reg .rax .q)],
+    4, 5⟩    -- code, x slot, y slot
 /- i64.shl:
      push rcx
      mov  rax, qword ptr [rbp-32]
@@ -466,12 +505,13 @@ def i64_xor : Template := { code := [.mov (.reg .rax .q) (.slot 4 .q),
      mov  qword ptr [rbp-32], rax
      pop  rcx
 -/
-def i64_shl : Template := { code := [.push .rcx,
+def i64_shl : Template := ⟨[.push .rcx,
     .mov (.reg .rax .q) (.slot 4 .q),
     .mov (.reg .rcx .q) (.slot 5 .q),
     .sh .shl (.reg .rax .q),
     .mov (.slot 4 .q) (.reg .rax .q),
-    .pop .rcx], x := 4, y := 5 }
+    .pop .rcx],
+    4, 5⟩    -- code, x slot, y slot
 /- i64.shr_s:
      push rcx
      mov  rax, qword ptr [rbp-32]
@@ -480,12 +520,13 @@ def i64_shl : Template := { code := [.push .rcx,
      mov  qword ptr [rbp-32], rax
      pop  rcx
 -/
-def i64_shr_s : Template := { code := [.push .rcx,
+def i64_shr_s : Template := ⟨[.push .rcx,
     .mov (.reg .rax .q) (.slot 4 .q),
     .mov (.reg .rcx .q) (.slot 5 .q),
     .sh .sar (.reg .rax .q),
     .mov (.slot 4 .q) (.reg .rax .q),
-    .pop .rcx], x := 4, y := 5 }
+    .pop .rcx],
+    4, 5⟩    -- code, x slot, y slot
 /- i64.shr_u:
      push rcx
      mov  rax, qword ptr [rbp-32]
@@ -494,12 +535,13 @@ def i64_shr_s : Template := { code := [.push .rcx,
      mov  qword ptr [rbp-32], rax
      pop  rcx
 -/
-def i64_shr_u : Template := { code := [.push .rcx,
+def i64_shr_u : Template := ⟨[.push .rcx,
     .mov (.reg .rax .q) (.slot 4 .q),
     .mov (.reg .rcx .q) (.slot 5 .q),
     .sh .shr (.reg .rax .q),
     .mov (.slot 4 .q) (.reg .rax .q),
-    .pop .rcx], x := 4, y := 5 }
+    .pop .rcx],
+    4, 5⟩    -- code, x slot, y slot
 /- i64.rotl:
      push rcx
      mov  rax, qword ptr [rbp-32]
@@ -508,12 +550,13 @@ def i64_shr_u : Template := { code := [.push .rcx,
      mov  qword ptr [rbp-32], rax
      pop  rcx
 -/
-def i64_rotl : Template := { code := [.push .rcx,
+def i64_rotl : Template := ⟨[.push .rcx,
     .mov (.reg .rax .q) (.slot 4 .q),
     .mov (.reg .rcx .q) (.slot 5 .q),
     .sh .rol (.reg .rax .q),
     .mov (.slot 4 .q) (.reg .rax .q),
-    .pop .rcx], x := 4, y := 5 }
+    .pop .rcx],
+    4, 5⟩    -- code, x slot, y slot
 /- i64.rotr:
      push rcx
      mov  rax, qword ptr [rbp-32]
@@ -522,12 +565,13 @@ def i64_rotl : Template := { code := [.push .rcx,
      mov  qword ptr [rbp-32], rax
      pop  rcx
 -/
-def i64_rotr : Template := { code := [.push .rcx,
+def i64_rotr : Template := ⟨[.push .rcx,
     .mov (.reg .rax .q) (.slot 4 .q),
     .mov (.reg .rcx .q) (.slot 5 .q),
     .sh .ror (.reg .rax .q),
     .mov (.slot 4 .q) (.reg .rax .q),
-    .pop .rcx], x := 4, y := 5 }
+    .pop .rcx],
+    4, 5⟩    -- code, x slot, y slot
 /- i64.eq:
      mov   r10, qword ptr [rbp-32]
      mov   r11, qword ptr [rbp-40]
@@ -536,12 +580,13 @@ def i64_rotr : Template := { code := [.push .rcx,
      movzx eax, al
      mov   dword ptr [rbp-32], eax
 -/
-def i64_eq : Template := { code := [.mov (.reg .r10 .q) (.slot 4 .q),
+def i64_eq : Template := ⟨[.mov (.reg .r10 .q) (.slot 4 .q),
     .mov (.reg .r11 .q) (.slot 5 .q),
     .alu .cmp (.reg .r10 .q) (.reg .r11 .q),
     .set .e (.reg .rax .b),
     .movzx (.reg .rax .d) (.reg .rax .b),
-    .mov (.slot 4 .d) (.reg .rax .d)], x := 4, y := 5 }
+    .mov (.slot 4 .d) (.reg .rax .d)],
+    4, 5⟩    -- code, x slot, y slot
 /- i64.ne:
      mov   r10, qword ptr [rbp-32]
      mov   r11, qword ptr [rbp-40]
@@ -550,12 +595,13 @@ def i64_eq : Template := { code := [.mov (.reg .r10 .q) (.slot 4 .q),
      movzx eax, al
      mov   dword ptr [rbp-32], eax
 -/
-def i64_ne : Template := { code := [.mov (.reg .r10 .q) (.slot 4 .q),
+def i64_ne : Template := ⟨[.mov (.reg .r10 .q) (.slot 4 .q),
     .mov (.reg .r11 .q) (.slot 5 .q),
     .alu .cmp (.reg .r10 .q) (.reg .r11 .q),
     .set .ne (.reg .rax .b),
     .movzx (.reg .rax .d) (.reg .rax .b),
-    .mov (.slot 4 .d) (.reg .rax .d)], x := 4, y := 5 }
+    .mov (.slot 4 .d) (.reg .rax .d)],
+    4, 5⟩    -- code, x slot, y slot
 /- i64.lt_s:
      mov   r10, qword ptr [rbp-32]
      mov   r11, qword ptr [rbp-40]
@@ -564,12 +610,13 @@ def i64_ne : Template := { code := [.mov (.reg .r10 .q) (.slot 4 .q),
      movzx eax, al
      mov   dword ptr [rbp-32], eax
 -/
-def i64_lt_s : Template := { code := [.mov (.reg .r10 .q) (.slot 4 .q),
+def i64_lt_s : Template := ⟨[.mov (.reg .r10 .q) (.slot 4 .q),
     .mov (.reg .r11 .q) (.slot 5 .q),
     .alu .cmp (.reg .r10 .q) (.reg .r11 .q),
     .set .l (.reg .rax .b),
     .movzx (.reg .rax .d) (.reg .rax .b),
-    .mov (.slot 4 .d) (.reg .rax .d)], x := 4, y := 5 }
+    .mov (.slot 4 .d) (.reg .rax .d)],
+    4, 5⟩    -- code, x slot, y slot
 /- i64.lt_u:
      mov   r10, qword ptr [rbp-32]
      mov   r11, qword ptr [rbp-40]
@@ -578,12 +625,13 @@ def i64_lt_s : Template := { code := [.mov (.reg .r10 .q) (.slot 4 .q),
      movzx eax, al
      mov   dword ptr [rbp-32], eax
 -/
-def i64_lt_u : Template := { code := [.mov (.reg .r10 .q) (.slot 4 .q),
+def i64_lt_u : Template := ⟨[.mov (.reg .r10 .q) (.slot 4 .q),
     .mov (.reg .r11 .q) (.slot 5 .q),
     .alu .cmp (.reg .r10 .q) (.reg .r11 .q),
     .set .b (.reg .rax .b),
     .movzx (.reg .rax .d) (.reg .rax .b),
-    .mov (.slot 4 .d) (.reg .rax .d)], x := 4, y := 5 }
+    .mov (.slot 4 .d) (.reg .rax .d)],
+    4, 5⟩    -- code, x slot, y slot
 /- i64.gt_s:
      mov   r10, qword ptr [rbp-32]
      mov   r11, qword ptr [rbp-40]
@@ -592,12 +640,13 @@ def i64_lt_u : Template := { code := [.mov (.reg .r10 .q) (.slot 4 .q),
      movzx eax, al
      mov   dword ptr [rbp-32], eax
 -/
-def i64_gt_s : Template := { code := [.mov (.reg .r10 .q) (.slot 4 .q),
+def i64_gt_s : Template := ⟨[.mov (.reg .r10 .q) (.slot 4 .q),
     .mov (.reg .r11 .q) (.slot 5 .q),
     .alu .cmp (.reg .r10 .q) (.reg .r11 .q),
     .set .g (.reg .rax .b),
     .movzx (.reg .rax .d) (.reg .rax .b),
-    .mov (.slot 4 .d) (.reg .rax .d)], x := 4, y := 5 }
+    .mov (.slot 4 .d) (.reg .rax .d)],
+    4, 5⟩    -- code, x slot, y slot
 /- i64.gt_u:
      mov   r10, qword ptr [rbp-32]
      mov   r11, qword ptr [rbp-40]
@@ -606,12 +655,13 @@ def i64_gt_s : Template := { code := [.mov (.reg .r10 .q) (.slot 4 .q),
      movzx eax, al
      mov   dword ptr [rbp-32], eax
 -/
-def i64_gt_u : Template := { code := [.mov (.reg .r10 .q) (.slot 4 .q),
+def i64_gt_u : Template := ⟨[.mov (.reg .r10 .q) (.slot 4 .q),
     .mov (.reg .r11 .q) (.slot 5 .q),
     .alu .cmp (.reg .r10 .q) (.reg .r11 .q),
     .set .a (.reg .rax .b),
     .movzx (.reg .rax .d) (.reg .rax .b),
-    .mov (.slot 4 .d) (.reg .rax .d)], x := 4, y := 5 }
+    .mov (.slot 4 .d) (.reg .rax .d)],
+    4, 5⟩    -- code, x slot, y slot
 /- i64.le_s:
      mov   r10, qword ptr [rbp-32]
      mov   r11, qword ptr [rbp-40]
@@ -620,12 +670,13 @@ def i64_gt_u : Template := { code := [.mov (.reg .r10 .q) (.slot 4 .q),
      movzx eax, al
      mov   dword ptr [rbp-32], eax
 -/
-def i64_le_s : Template := { code := [.mov (.reg .r10 .q) (.slot 4 .q),
+def i64_le_s : Template := ⟨[.mov (.reg .r10 .q) (.slot 4 .q),
     .mov (.reg .r11 .q) (.slot 5 .q),
     .alu .cmp (.reg .r10 .q) (.reg .r11 .q),
     .set .le (.reg .rax .b),
     .movzx (.reg .rax .d) (.reg .rax .b),
-    .mov (.slot 4 .d) (.reg .rax .d)], x := 4, y := 5 }
+    .mov (.slot 4 .d) (.reg .rax .d)],
+    4, 5⟩    -- code, x slot, y slot
 /- i64.le_u:
      mov   r10, qword ptr [rbp-32]
      mov   r11, qword ptr [rbp-40]
@@ -634,12 +685,13 @@ def i64_le_s : Template := { code := [.mov (.reg .r10 .q) (.slot 4 .q),
      movzx eax, al
      mov   dword ptr [rbp-32], eax
 -/
-def i64_le_u : Template := { code := [.mov (.reg .r10 .q) (.slot 4 .q),
+def i64_le_u : Template := ⟨[.mov (.reg .r10 .q) (.slot 4 .q),
     .mov (.reg .r11 .q) (.slot 5 .q),
     .alu .cmp (.reg .r10 .q) (.reg .r11 .q),
     .set .be (.reg .rax .b),
     .movzx (.reg .rax .d) (.reg .rax .b),
-    .mov (.slot 4 .d) (.reg .rax .d)], x := 4, y := 5 }
+    .mov (.slot 4 .d) (.reg .rax .d)],
+    4, 5⟩    -- code, x slot, y slot
 /- i64.ge_s:
      mov   r10, qword ptr [rbp-32]
      mov   r11, qword ptr [rbp-40]
@@ -648,12 +700,13 @@ def i64_le_u : Template := { code := [.mov (.reg .r10 .q) (.slot 4 .q),
      movzx eax, al
      mov   dword ptr [rbp-32], eax
 -/
-def i64_ge_s : Template := { code := [.mov (.reg .r10 .q) (.slot 4 .q),
+def i64_ge_s : Template := ⟨[.mov (.reg .r10 .q) (.slot 4 .q),
     .mov (.reg .r11 .q) (.slot 5 .q),
     .alu .cmp (.reg .r10 .q) (.reg .r11 .q),
     .set .ge (.reg .rax .b),
     .movzx (.reg .rax .d) (.reg .rax .b),
-    .mov (.slot 4 .d) (.reg .rax .d)], x := 4, y := 5 }
+    .mov (.slot 4 .d) (.reg .rax .d)],
+    4, 5⟩    -- code, x slot, y slot
 /- i64.ge_u:
      mov   r10, qword ptr [rbp-32]
      mov   r11, qword ptr [rbp-40]
@@ -662,12 +715,13 @@ def i64_ge_s : Template := { code := [.mov (.reg .r10 .q) (.slot 4 .q),
      movzx eax, al
      mov   dword ptr [rbp-32], eax
 -/
-def i64_ge_u : Template := { code := [.mov (.reg .r10 .q) (.slot 4 .q),
+def i64_ge_u : Template := ⟨[.mov (.reg .r10 .q) (.slot 4 .q),
     .mov (.reg .r11 .q) (.slot 5 .q),
     .alu .cmp (.reg .r10 .q) (.reg .r11 .q),
     .set .ae (.reg .rax .b),
     .movzx (.reg .rax .d) (.reg .rax .b),
-    .mov (.slot 4 .d) (.reg .rax .d)], x := 4, y := 5 }
+    .mov (.slot 4 .d) (.reg .rax .d)],
+    4, 5⟩    -- code, x slot, y slot
 /- i64.eqz:
      mov   rax, qword ptr [rbp-24]
      cmp   rax, 0  # (rax==0)?
@@ -675,53 +729,60 @@ def i64_ge_u : Template := { code := [.mov (.reg .r10 .q) (.slot 4 .q),
      movzx eax, al # eax = al
      mov   dword ptr [rbp-24], eax
 -/
-def i64_eqz : Template := { code := [.mov (.reg .rax .q) (.slot 3 .q),
+def i64_eqz : Template := ⟨[.mov (.reg .rax .q) (.slot 3 .q),
     .alu .cmp (.reg .rax .q) (.imm (0)),
     .set .e (.reg .rax .b),
     .movzx (.reg .rax .d) (.reg .rax .b),
-    .mov (.slot 3 .d) (.reg .rax .d)], x := 3, y := 0 }
+    .mov (.slot 3 .d) (.reg .rax .d)],
+    3, 0⟩    -- code, x slot, y slot
 /- i64.clz:
      mov   rax, qword ptr [rbp-24]
      lzcnt rax, rax
      mov   dword ptr [rbp-24], rax
 -/
-def i64_clz : Template := { code := [.mov (.reg .rax .q) (.slot 3 .q),
+def i64_clz : Template := ⟨[.mov (.reg .rax .q) (.slot 3 .q),
     .lzcnt (.reg .rax .q) (.reg .rax .q),
-    .mov (.slot 3 .d) (.reg .rax .q)], x := 3, y := 0 }
+    .mov (.slot 3 .d) (.reg .rax .q)],
+    3, 0⟩    -- code, x slot, y slot
 /- i64.ctz:
      mov   rax, qword ptr [rbp-24]
      tzcnt rax, rax
      mov   dword ptr [rbp-24], rax
 -/
-def i64_ctz : Template := { code := [.mov (.reg .rax .q) (.slot 3 .q),
+def i64_ctz : Template := ⟨[.mov (.reg .rax .q) (.slot 3 .q),
     .tzcnt (.reg .rax .q) (.reg .rax .q),
-    .mov (.slot 3 .d) (.reg .rax .q)], x := 3, y := 0 }
+    .mov (.slot 3 .d) (.reg .rax .q)],
+    3, 0⟩    -- code, x slot, y slot
 /- i64.popcnt:
      mov    rax, qword ptr [rbp-24]
      popcnt rax, rax
      mov    dword ptr [rbp-24], rax
 -/
-def i64_popcnt : Template := { code := [.mov (.reg .rax .q) (.slot 3 .q),
+def i64_popcnt : Template := ⟨[.mov (.reg .rax .q) (.slot 3 .q),
     .popcnt (.reg .rax .q) (.reg .rax .q),
-    .mov (.slot 3 .d) (.reg .rax .q)], x := 3, y := 0 }
+    .mov (.slot 3 .d) (.reg .rax .q)],
+    3, 0⟩    -- code, x slot, y slot
 /- i32.wrap_i64:
      mov rax, qword ptr [rbp-24]
      mov dword ptr [rbp-24], eax
 -/
-def i32_wrap_i64 : Template := { code := [.mov (.reg .rax .q) (.slot 3 .q),
-    .mov (.slot 3 .d) (.reg .rax .d)], x := 3, y := 0 }
+def i32_wrap_i64 : Template := ⟨[.mov (.reg .rax .q) (.slot 3 .q),
+    .mov (.slot 3 .d) (.reg .rax .d)],
+    3, 0⟩    -- code, x slot, y slot
 /- i64.extend_i32_s:
      movsxd rax, dword ptr [rbp-24]
      mov    qword ptr [rbp-24], rax
 -/
-def i64_extend_i32_s : Template := { code := [.movsx (.reg .rax .q) (.slot 3 .d),
-    .mov (.slot 3 .q) (.reg .rax .q)], x := 3, y := 0 }
+def i64_extend_i32_s : Template := ⟨[.movsx (.reg .rax .q) (.slot 3 .d),
+    .mov (.slot 3 .q) (.reg .rax .q)],
+    3, 0⟩    -- code, x slot, y slot
 /- i64.extend_i32_u:
      mov eax, dword ptr [rbp-24]
      mov qword ptr [rbp-24], rax
 -/
-def i64_extend_i32_u : Template := { code := [.mov (.reg .rax .d) (.slot 3 .d),
-    .mov (.slot 3 .q) (.reg .rax .q)], x := 3, y := 0 }
+def i64_extend_i32_u : Template := ⟨[.mov (.reg .rax .d) (.slot 3 .d),
+    .mov (.slot 3 .q) (.reg .rax .q)],
+    3, 0⟩    -- code, x slot, y slot
 /- select:
      mov  eax, dword ptr [rbp-56]
      test eax, eax
@@ -730,12 +791,13 @@ def i64_extend_i32_u : Template := { code := [.mov (.reg .rax .d) (.slot 3 .d),
      cmovne r10d, r11d
      mov    dword ptr [rbp-40], r10d
 -/
-def select_i32 : Template := { code := [.mov (.reg .rax .d) (.slot 7 .d),
+def select_i32 : Template := ⟨[.mov (.reg .rax .d) (.slot 7 .d),
     .alu .test (.reg .rax .d) (.reg .rax .d),
     .mov (.reg .r10 .d) (.slot 6 .d),
     .mov (.reg .r11 .d) (.slot 5 .d),
     .cmovne (.reg .r10 .d) (.reg .r11 .d),
-    .mov (.slot 5 .d) (.reg .r10 .d)], x := 5, y := 6 }
+    .mov (.slot 5 .d) (.reg .r10 .d)],
+    5, 6⟩    -- code, x slot, y slot
 def select_i32_c : Nat := 7
 /- select:
      mov  eax, dword ptr [rbp-56]
@@ -745,12 +807,13 @@ def select_i32_c : Nat := 7
      cmovne r10, r11
      mov    qword ptr [rbp-40], r10
 -/
-def select_i64 : Template := { code := [.mov (.reg .rax .d) (.slot 7 .d),
+def select_i64 : Template := ⟨[.mov (.reg .rax .d) (.slot 7 .d),
     .alu .test (.reg .rax .d) (.reg .rax .d),
     .mov (.reg .r10 .q) (.slot 6 .q),
     .mov (.reg .r11 .q) (.slot 5 .q),
     .cmovne (.reg .r10 .q) (.reg .r11 .q),
-    .mov (.slot 5 .q) (.reg .r10 .q)], x := 5, y := 6 }
+    .mov (.slot 5 .q) (.reg .r10 .q)],
+    5, 6⟩    -- code, x slot, y slot
 def select_i64_c : Nat := 7
 
 def table : List (String × Template) := [("i32_add", i32_add), ("i32_sub", i32_sub), ("i32_mul", i32_mul), ("i32_div_s", i32_div_s), ("i32_div_u", i32_div_u), ("i32_rem_s", i32_rem_s), ("i32_rem_u", i32_rem_u), ("i32_and", i32_and), ("i32_or", i32_or), ("i32_xor", i32_xor), ("i32_shl", i32_shl), ("i32_shr_s", i32_shr_s), ("i32_shr_u", i32_shr_u), ("i32_rotl", i32_rotl), ("i32_rotr", i32_rotr), ("i32_eq", i32_eq), ("i32_ne", i32_ne), ("i32_lt_s", i32_lt_s), ("i32_lt_u", i32_lt_u), ("i32_gt_s", i32_gt_s), ("i32_gt_u", i32_gt_u), ("i32_le_s", i32_le_s), ("i32_le_u", i32_le_u), ("i32_ge_s", i32_ge_s), ("i32_ge_u", i32_ge_u), ("i32_eqz", i32_eqz), ("i32_clz", i32_clz), ("i32_ctz", i32_ctz), ("i32_popcnt", i32_popcnt), ("i64_add", i64_add), ("i64_sub", i64_sub), ("i64_mul", i64_mul), ("i64_div_s", i64_div_s), ("i64_div_u", i64_div_u), ("i64_rem_s", i64_rem_s), ("i64_rem_u", i64_rem_u), ("i64_and", i64_and), ("i64_or", i64_or), ("i64_xor", i64_xor), ("i64_shl", i64_shl), ("i64_shr_s", i64_shr_s), ("i64_shr_u", i64_shr_u), ("i64_rotl", i64_rotl), ("i64_rotr", i64_rotr), ("i64_eq", i64_eq), ("i64_ne", i64_ne), ("i64_lt_s", i64_lt_s), ("i64_lt_u", i64_lt_u), ("i64_gt_s", i64_gt_s), ("i64_gt_u", i64_gt_u), ("i64_le_s", i64_le_s), ("i64_le_u", i64_le_u), ("i64_ge_s", i64_ge_s), ("i64_ge_u", i64_ge_u), ("i64_eqz", i64_eqz), ("i64_clz", i64_clz), ("i64_ctz", i64_ctz), ("i64_popcnt", i64_popcnt), ("i32_wrap_i64", i32_wrap_i64), ("i64_extend_i32_s", i64_extend_i32_s), ("i64_extend_i32_u", i64_extend_i32_u), ("select_i32", select_i32), ("select_i64", select_i64)]
